@@ -160,9 +160,28 @@ func c01Run(run *ev.Run) {
 			continue
 		}
 		o := c01Opts(run.Tier, spec)
+		if run.Tier == "thorough" {
+			// pass 1: depth 6 with single deviations; pass 2 (below): depth 4 with pairs of deviations
+			o.MaxDev, o.Pairs = 1, false
+		}
 		m := o.model(c01Monitor(run, spec))
 		m.MaxDepth = depth
 		st := seqx.Explore(run, m)
+		if run.Tier == "thorough" {
+			o2 := c01Opts(run.Tier, spec)
+			o2.MaxSessions = 3
+			m2 := o2.model(c01Monitor(run, spec))
+			m2.MaxDepth = 4
+			st2 := seqx.Explore(run, m2)
+			st.States += st2.States
+			st.Transitions += st2.Transitions
+			st.Histories += st2.Histories
+			st.Replayed += st2.Replayed
+			if !st2.Complete {
+				st.Complete = false
+			}
+			run.Extra[fmt.Sprintf("levels_pairs_%s_fwd=%v", spec.Store, spec.Forward)] = st2.LevelSizes
+		}
 		total.States += st.States
 		total.Transitions += st.Transitions
 		total.Histories += st.Histories
